@@ -434,6 +434,9 @@ theorem setFilepathsAttr_inv {s : St} (h : Inv s) (env : Env) (ps : List Path) :
 theorem putGlobs_inv {s : St} (h : Inv s) (inc : Bool) (gs : List Glob) : Inv (putGlobs s inc gs) := by
   unfold putGlobs; split <;> exact h
 
+theorem putRxs_inv {s : St} (h : Inv s) (inc : Bool) (rs : List Rx) : Inv (putRxs s inc rs) := by
+  unfold putRxs; split <;> exact h
+
 theorem filtersChanged_inv {s : St} (h : Inv s) (env : Env) : Inv (filtersChanged env s).1 := by
   unfold filtersChanged
   split
@@ -474,6 +477,86 @@ theorem generate_inv {s : St} (h : Inv s) (env : Env) : Inv (generate env s).1 :
 theorem setName_inv {s : St} (h : Inv s) (v : Option String) : Inv (setName s v) := by
   unfold setName; split <;> exact h
 
+/-! ### operations on a filter list (generic in the list: `get`/`put` select it) -/
+
+section filterList
+variable {α : Type} [DecidableEq α]
+variable (env : Env) (valid : α → Bool) (get : St → List α) (put : St → List α → St)
+
+theorem setSliceL_inv {s : St} (hput : ∀ s l, Inv s → Inv (put s l)) (h : Inv s) (a : Nat)
+    (b : Option Nat) (vs : List α) : Inv (setSliceL env valid get put s a b vs).1 := by
+  unfold setSliceL; split
+  · exact h
+  · exact filtersChanged_inv (hput _ _ h) env
+
+theorem setIndexL_inv {s : St} (hput : ∀ s l, Inv s → Inv (put s l)) (h : Inv s) (i : Int) (v : α) :
+    Inv (setIndexL env valid get put s i v).1 := by
+  unfold setIndexL; split
+  · exact h
+  · split
+    · exact h
+    · exact filtersChanged_inv (hput _ _ h) env
+
+theorem appendL_inv {s : St} (hput : ∀ s l, Inv s → Inv (put s l)) (h : Inv s) (v : α) :
+    Inv (appendL env valid get put s v).1 := by
+  unfold appendL; split
+  · exact h
+  · exact filtersChanged_inv (hput _ _ h) env
+
+/-- `extend` is a run of `append`s that stops at the first one that raises -/
+theorem extendL_cons (s : St) (v : α) (vs : List α) :
+    extendL env valid get put s (v :: vs) =
+      if (appendL env valid get put s v).2 = .ok
+      then extendL env valid get put (appendL env valid get put s v).1 vs
+      else appendL env valid get put s v := by
+  rw [extendL]
+  generalize appendL env valid get put s v = r
+  obtain ⟨s', res⟩ := r
+  cases res <;> simp
+
+theorem extendL_inv (hput : ∀ s l, Inv s → Inv (put s l)) (vs : List α) :
+    ∀ {s : St}, Inv s → Inv (extendL env valid get put s vs).1 := by
+  induction vs with
+  | nil => intro s h; exact h
+  | cons v vs ih =>
+    intro s h
+    rw [extendL_cons]
+    split
+    · exact ih (appendL_inv env valid get put hput h v)
+    · exact appendL_inv env valid get put hput h v
+
+/-- `torrent.x += vs` is `extend(vs)` and, if that did not raise, `lst[:] = lst` -/
+theorem iaddAttr_eq (s : St) (vs : List α) :
+    applyL env valid get put s (.iaddAttr vs) =
+      if (extendL env valid get put s vs).2 = .ok
+      then setSliceL env valid get put (extendL env valid get put s vs).1 0 none
+             (get (extendL env valid get put s vs).1)
+      else extendL env valid get put s vs := by
+  rw [applyL]
+  generalize extendL env valid get put s vs = r
+  obtain ⟨s', res⟩ := r
+  cases res <;> simp
+
+theorem applyL_inv {s : St} (hput : ∀ s l, Inv s → Inv (put s l)) (h : Inv s) (o : LOp α) :
+    Inv (applyL env valid get put s o).1 := by
+  cases o with
+  | setSlice a b vs => exact setSliceL_inv env valid get put hput h a b vs
+  | setIndex i v => exact setIndexL_inv env valid get put hput h i v
+  | append v => exact appendL_inv env valid get put hput h v
+  | extend vs => exact extendL_inv env valid get put hput vs h
+  | del i =>
+    simp only [applyL]; split
+    · exact h
+    · exact filtersChanged_inv (hput _ _ h) env
+  | clear => exact filtersChanged_inv (hput _ _ h) env
+  | assignSelf => exact setSliceL_inv env valid get put hput h 0 none _
+  | iaddAttr vs =>
+    rw [iaddAttr_eq]; split
+    · exact setSliceL_inv env valid get put hput (extendL_inv env valid get put hput vs h) 0 none _
+    · exact extendL_inv env valid get put hput vs h
+
+end filterList
+
 /-- **one step**: every operation that satisfies `OpOk` preserves the invariant, whatever the
     file system looks like and whether or not the operation raises -/
 theorem apply_inv {s : St} (h : Inv s) (env : Env) (op : Op) (hok : OpOk s op) :
@@ -494,13 +577,8 @@ theorem apply_inv {s : St} (h : Inv s) (env : Env) (op : Op) (hok : OpOk s op) :
     · exact setFilepathsAttr_inv h env _
   | fpAppend p => exact setFilepathsAttr_inv h env _
   | fpClear => exact setFilepathsAttr_inv h env _
-  | globSet inc gs => exact filtersChanged_inv (putGlobs_inv h inc gs) env
-  | globAppend inc g => exact filtersChanged_inv (putGlobs_inv h inc _) env
-  | globDel inc i =>
-    simp only [apply]; split
-    · exact h
-    · exact filtersChanged_inv (putGlobs_inv h inc _) env
-  | globClear inc => exact filtersChanged_inv (putGlobs_inv h inc _) env
+  | glob inc o => exact applyL_inv env _ _ _ (fun _ l h => putGlobs_inv h inc l) h o
+  | rx inc o => exact applyL_inv env _ _ _ (fun _ l h => putRxs_inv h inc l) h o
   | setName n => exact setName_inv h n
   | setPieceSize v => exact setPieceSize_inv h v
   | setMin v => exact setMin_inv h v hok
@@ -513,9 +591,10 @@ theorem apply_inv {s : St} (h : Inv s) (env : Env) (op : Op) (hok : OpOk s op) :
 /-- nothing the piece hashes depend on (and no filter list) differs between `s` and `s'` -/
 def Same (s s' : St) : Prop :=
   s'.pieces = s.pieces ∧ s'.path = s.path ∧ s'.content = s.content ∧ s'.pl = s.pl ∧
-  s'.exGlobs = s.exGlobs ∧ s'.inGlobs = s.inGlobs
+  s'.exGlobs = s.exGlobs ∧ s'.inGlobs = s.inGlobs ∧ s'.exRegexs = s.exRegexs ∧
+  s'.inRegexs = s.inRegexs
 
-theorem Same.rfl' (s : St) : Same s s := ⟨rfl, rfl, rfl, rfl, rfl, rfl⟩
+theorem Same.rfl' (s : St) : Same s s := ⟨rfl, rfl, rfl, rfl, rfl, rfl, rfl, rfl⟩
 
 theorem checkAndStore_same (s : St) (x : Int) (g : Ghost)
     (hg : (checkAndStore s x).1.pieces = some g) : Same s (checkAndStore s x).1 := by
@@ -525,7 +604,7 @@ theorem checkAndStore_same (s : St) (x : Int) (g : Ghost)
     unfold stored at hg ⊢
     by_cases hpl : s.pl = some n
     · simp only [hpl, ne_eq, not_true_eq_false, if_false]
-      exact ⟨rfl, rfl, rfl, hpl.symm, rfl, rfl⟩
+      exact ⟨rfl, rfl, rfl, hpl.symm, rfl, rfl, rfl, rfl⟩
     · simp only [ne_eq, hpl, not_false_eq_true, if_true] at hg
       exact absurd hg (by simp)
 
@@ -708,7 +787,7 @@ theorem setMin_same {s : St} (v : Option Int) (g : Ghost)
     (hg : (setMin s v).1.pieces = some g) : Same s (setMin s v).1 := by
   rcases setMin_cases s v with e | ⟨m, e | ⟨y, e⟩⟩
   · rw [e]; exact Same.rfl' s
-  · rw [e]; exact ⟨rfl, rfl, rfl, rfl, rfl, rfl⟩
+  · rw [e]; exact ⟨rfl, rfl, rfl, rfl, rfl, rfl, rfl, rfl⟩
   · rw [e] at hg ⊢
     exact checkAndStore_same { s with pmin := m } y g hg
 
@@ -716,7 +795,7 @@ theorem setMax_same {s : St} (v : Option Int) (g : Ghost)
     (hg : (setMax s v).1.pieces = some g) : Same s (setMax s v).1 := by
   rcases setMax_cases s v with e | ⟨m, e | ⟨y, e⟩⟩
   · rw [e]; exact Same.rfl' s
-  · rw [e]; exact ⟨rfl, rfl, rfl, rfl, rfl, rfl⟩
+  · rw [e]; exact ⟨rfl, rfl, rfl, rfl, rfl, rfl, rfl, rfl⟩
   · rw [e] at hg ⊢
     exact checkAndStore_same { s with pmax := m } y g hg
 
@@ -893,64 +972,6 @@ theorem allOk_allOkC (env : Env) : ∀ (ops : List Op) (s : St), AllOk env s ops
     unfold AllOkC
     exact Or.inl ⟨h.1, allOk_allOkC env (op' :: ops) _ h.2⟩
 
-theorem putGlobs_path (s : St) (inc : Bool) (gs : List Glob) :
-    (putGlobs s inc gs).path = s.path ∧ (putGlobs s inc gs).pieces = s.pieces := by
-  unfold putGlobs; split <;> exact ⟨rfl, rfl⟩
-
-theorem glob_none {s : St} (h : Inv s) (env : Env) (hex : ∀ p, s.path = some p → env.exists p = true)
-    (inc : Bool) (gs : List Glob) : (filtersChanged env (putGlobs s inc gs)).1.pieces = none := by
-  obtain ⟨e1, e2⟩ := putGlobs_path s inc gs
-  apply filtersChanged_none
-  · intro p hp; rw [e1] at hp; exact hex p hp
-  · intro hp
-    rw [e1] at hp; rw [e2]
-    have hs := h.2.2.2.2.2.2
-    unfold StampOk at hs
-    cases hq : s.pieces with
-    | none => rfl
-    | some g => rw [hq] at hs; rw [hs.1] at hp; exact absurd hp (by simp)
-
-/-- **Discard.** If piece hashes are present after an operation other than `generate`, then they
-    are the ones that were present before, and the operation changed neither the content path,
-    the listed files and sizes, the piece length, nor a filter list. -/
-theorem apply_same {s : St} (h : Inv s) (env : Env) (hex : ∀ p, s.path = some p → env.exists p = true)
-    (op : Op) (hop : op ≠ .generate) (g : Ghost) (hg : (apply env s op).1.pieces = some g) :
-    Same s (apply env s op).1 := by
-  cases op with
-  | setPath p => exact setPath_same env s p g hg
-  | setFiles fs => exact setFilesAttr_same env s fs g hg
-  | filesDel i =>
-    simp only [apply] at hg ⊢; split
-    · exact Same.rfl' s
-    · rename_i h1; rw [if_neg h1] at hg; exact setFilesAttr_same env s _ g hg
-  | filesAppend f => exact setFilesAttr_same env s _ g hg
-  | filesClear => exact setFilesAttr_same env s _ g hg
-  | setFilepaths ps => exact setFilepathsAttr_same env s ps g hg
-  | fpDel i =>
-    simp only [apply] at hg ⊢; split
-    · exact Same.rfl' s
-    · rename_i h1; rw [if_neg h1] at hg; exact setFilepathsAttr_same env s _ g hg
-  | fpAppend p => exact setFilepathsAttr_same env s _ g hg
-  | fpClear => exact setFilepathsAttr_same env s _ g hg
-  | globSet inc gs =>
-    have := glob_none h env hex inc gs
-    simp only [apply] at hg; rw [this] at hg; exact absurd hg (by simp)
-  | globAppend inc g' =>
-    simp only [apply] at hg; rw [glob_none h env hex] at hg; exact absurd hg (by simp)
-  | globDel inc i =>
-    simp only [apply] at hg ⊢; split
-    · exact Same.rfl' s
-    · rename_i h1; rw [if_neg h1, glob_none h env hex] at hg; exact absurd hg (by simp)
-  | globClear inc =>
-    simp only [apply] at hg; rw [glob_none h env hex] at hg; exact absurd hg (by simp)
-  | setName n =>
-    simp only [apply, setName]; split <;> exact ⟨rfl, rfl, rfl, rfl, rfl, rfl⟩
-  | setPieceSize v => exact setPieceSize_same h v g hg
-  | setMin v => exact setMin_same v g hg
-  | setMax v => exact setMax_same v g hg
-  | generate => exact absurd rfl hop
-  | setComment c => exact ⟨rfl, rfl, rfl, rfl, rfl, rfl⟩
-
 /-! ### the content path, when set, exists in the (unchanging) file system -/
 
 def PathEx (env : Env) (s : St) : Prop := ∀ p, s.path = some p → env.exists p = true
@@ -1027,6 +1048,63 @@ theorem putGlobs_pathEx {env : Env} {s : St} (h : PathEx env s) (inc : Bool) (gs
     PathEx env (putGlobs s inc gs) := by
   unfold putGlobs; split <;> exact h
 
+theorem putRxs_pathEx {env : Env} {s : St} (h : PathEx env s) (inc : Bool) (rs : List Rx) :
+    PathEx env (putRxs s inc rs) := by
+  unfold putRxs; split <;> exact h
+
+section filterList
+variable {α : Type} [DecidableEq α]
+variable (env : Env) (valid : α → Bool) (get : St → List α) (put : St → List α → St)
+
+theorem setSliceL_pathEx {s : St} (hput : ∀ s l, PathEx env s → PathEx env (put s l))
+    (h : PathEx env s) (a : Nat) (b : Option Nat) (vs : List α) :
+    PathEx env (setSliceL env valid get put s a b vs).1 := by
+  unfold setSliceL; split
+  · exact h
+  · exact filtersChanged_pathEx (hput _ _ h)
+
+theorem appendL_pathEx {s : St} (hput : ∀ s l, PathEx env s → PathEx env (put s l))
+    (h : PathEx env s) (v : α) : PathEx env (appendL env valid get put s v).1 := by
+  unfold appendL; split
+  · exact h
+  · exact filtersChanged_pathEx (hput _ _ h)
+
+theorem extendL_pathEx (hput : ∀ s l, PathEx env s → PathEx env (put s l)) (vs : List α) :
+    ∀ {s : St}, PathEx env s → PathEx env (extendL env valid get put s vs).1 := by
+  induction vs with
+  | nil => intro s h; exact h
+  | cons v vs ih =>
+    intro s h
+    rw [extendL_cons]
+    split
+    · exact ih (appendL_pathEx env valid get put hput h v)
+    · exact appendL_pathEx env valid get put hput h v
+
+theorem applyL_pathEx {s : St} (hput : ∀ s l, PathEx env s → PathEx env (put s l))
+    (h : PathEx env s) (o : LOp α) : PathEx env (applyL env valid get put s o).1 := by
+  cases o with
+  | setSlice a b vs => exact setSliceL_pathEx env valid get put hput h a b vs
+  | setIndex i v =>
+    simp only [applyL, setIndexL]; split
+    · exact h
+    · split
+      · exact h
+      · exact filtersChanged_pathEx (hput _ _ h)
+  | append v => exact appendL_pathEx env valid get put hput h v
+  | extend vs => exact extendL_pathEx env valid get put hput vs h
+  | del i =>
+    simp only [applyL]; split
+    · exact h
+    · exact filtersChanged_pathEx (hput _ _ h)
+  | clear => exact filtersChanged_pathEx (hput _ _ h)
+  | assignSelf => exact setSliceL_pathEx env valid get put hput h 0 none _
+  | iaddAttr vs =>
+    rw [iaddAttr_eq]; split
+    · exact setSliceL_pathEx env valid get put hput (extendL_pathEx env valid get put hput vs h) 0 none _
+    · exact extendL_pathEx env valid get put hput vs h
+
+end filterList
+
 theorem generate_path (env : Env) (s : St) : (generate env s).1.path = s.path := by
   unfold generate
   split
@@ -1055,13 +1133,8 @@ theorem apply_pathEx {env : Env} {s : St} (h : PathEx env s) (op : Op) :
     · exact setFilepathsAttr_pathEx h _
   | fpAppend p => exact setFilepathsAttr_pathEx h _
   | fpClear => exact setFilepathsAttr_pathEx h _
-  | globSet inc gs => exact filtersChanged_pathEx (putGlobs_pathEx h inc gs)
-  | globAppend inc g => exact filtersChanged_pathEx (putGlobs_pathEx h inc _)
-  | globDel inc i =>
-    simp only [apply]; split
-    · exact h
-    · exact filtersChanged_pathEx (putGlobs_pathEx h inc _)
-  | globClear inc => exact filtersChanged_pathEx (putGlobs_pathEx h inc _)
+  | glob inc o => exact applyL_pathEx env _ _ _ (fun _ l h => putGlobs_pathEx h inc l) h o
+  | rx inc o => exact applyL_pathEx env _ _ _ (fun _ l h => putRxs_pathEx h inc l) h o
   | setName n =>
     simp only [apply, setName]; split <;> exact h
   | setPieceSize v =>
@@ -1083,5 +1156,627 @@ theorem apply_pathEx {env : Env} {s : St} (h : PathEx env s) (op : Op) :
   | generate =>
     intro p hp; simp only [apply, generate_path] at hp; exact h p hp
   | setComment c => exact h
+
+/-! ### discard, continued: every filter-list edit that is not rejected drops the hashes -/
+
+theorem putGlobs_path (s : St) (inc : Bool) (gs : List Glob) :
+    (putGlobs s inc gs).path = s.path ∧ (putGlobs s inc gs).pieces = s.pieces := by
+  unfold putGlobs; split <;> exact ⟨rfl, rfl⟩
+
+theorem putRxs_path (s : St) (inc : Bool) (rs : List Rx) :
+    (putRxs s inc rs).path = s.path ∧ (putRxs s inc rs).pieces = s.pieces := by
+  unfold putRxs; split <;> exact ⟨rfl, rfl⟩
+
+/-- the callback never brings hashes back -/
+theorem filtersChanged_keeps_none (env : Env) (s : St) (h : s.pieces = none) :
+    (filtersChanged env s).1.pieces = none := by
+  unfold filtersChanged
+  split
+  · cases hq : (setPath env s _).1.pieces with
+    | none => rfl
+    | some g =>
+      have := (setPath_same env s _ g hq).1
+      rw [hq, h] at this; exact absurd this (by simp)
+  · cases hq : (setFilesAttr env s (filesOf s)).1.pieces with
+    | none => rfl
+    | some g =>
+      have := (setFilesAttr_same env s _ g hq).1
+      rw [hq, h] at this; exact absurd this (by simp)
+
+/-- `put` writes one filter list and nothing else that matters here -/
+structure PutOk (env : Env) {α : Type} (put : St → List α → St) : Prop where
+  inv : ∀ s l, Inv s → Inv (put s l)
+  pathEx : ∀ s l, PathEx env s → PathEx env (put s l)
+  path : ∀ s l, (put s l).path = s.path
+  pieces : ∀ s l, (put s l).pieces = s.pieces
+
+theorem putGlobs_ok (env : Env) (inc : Bool) : PutOk env (putGlobs · inc) :=
+  ⟨fun _ l h => putGlobs_inv h inc l, fun _ l h => putGlobs_pathEx h inc l,
+   fun s l => (putGlobs_path s inc l).1, fun s l => (putGlobs_path s inc l).2⟩
+
+theorem putRxs_ok (env : Env) (inc : Bool) : PutOk env (putRxs · inc) :=
+  ⟨fun _ l h => putRxs_inv h inc l, fun _ l h => putRxs_pathEx h inc l,
+   fun s l => (putRxs_path s inc l).1, fun s l => (putRxs_path s inc l).2⟩
+
+section filterList
+variable {α : Type} [DecidableEq α]
+variable (env : Env) (valid : α → Bool) (get : St → List α) (put : St → List α → St)
+
+/-- a filter-list edit re-runs a content setter, which drops the piece hashes -/
+theorem put_none {s : St} (hp : PutOk env put) (h : Inv s) (hex : PathEx env s) (l : List α) :
+    (filtersChanged env (put s l)).1.pieces = none := by
+  apply filtersChanged_none
+  · intro p hq; rw [hp.path] at hq; exact hex p hq
+  · intro hq
+    rw [hp.path] at hq; rw [hp.pieces]
+    have hs := h.2.2.2.2.2.2
+    unfold StampOk at hs
+    cases hq' : s.pieces with
+    | none => rfl
+    | some g => rw [hq'] at hs; rw [hs.1] at hq; exact absurd hq (by simp)
+
+theorem setSliceL_cases {s : St} (hp : PutOk env put) (h : Inv s) (hex : PathEx env s) (a : Nat)
+    (b : Option Nat) (vs : List α) :
+    setSliceL env valid get put s a b vs = (s, .err .regex) ∨
+    (setSliceL env valid get put s a b vs).1.pieces = none := by
+  unfold setSliceL; split
+  · exact Or.inl rfl
+  · exact Or.inr (put_none env put hp h hex _)
+
+theorem appendL_cases {s : St} (hp : PutOk env put) (h : Inv s) (hex : PathEx env s) (v : α) :
+    appendL env valid get put s v = (s, .err .regex) ∨
+    (appendL env valid get put s v).1.pieces = none := by
+  unfold appendL; split
+  · exact Or.inl rfl
+  · exact Or.inr (put_none env put hp h hex _)
+
+theorem appendL_keeps_none {s : St} (hp : PutOk env put) (h : s.pieces = none) (v : α) :
+    (appendL env valid get put s v).1.pieces = none := by
+  unfold appendL; split
+  · exact h
+  · exact filtersChanged_keeps_none env _ (by rw [hp.pieces]; exact h)
+
+theorem extendL_keeps_none (hp : PutOk env put) (vs : List α) :
+    ∀ {s : St}, s.pieces = none → (extendL env valid get put s vs).1.pieces = none := by
+  induction vs with
+  | nil => intro s h; exact h
+  | cons v vs ih =>
+    intro s h
+    rw [extendL_cons]
+    split
+    · exact ih (appendL_keeps_none env valid get put hp h v)
+    · exact appendL_keeps_none env valid get put hp h v
+
+/-- `extend`: nothing happened at all (no item, or the first item was rejected), or the hashes
+    are gone -/
+theorem extendL_cases {s : St} (hp : PutOk env put) (h : Inv s) (hex : PathEx env s) (vs : List α) :
+    (extendL env valid get put s vs).1 = s ∨ (extendL env valid get put s vs).1.pieces = none := by
+  cases vs with
+  | nil => exact Or.inl rfl
+  | cons v vs =>
+    rw [extendL_cons]
+    rcases appendL_cases env valid get put hp h hex v with e | e
+    · left; rw [e]; simp
+    · right
+      split
+      · exact extendL_keeps_none env valid get put hp vs e
+      · exact e
+
+theorem applyL_same {s : St} (hp : PutOk env put) (h : Inv s) (hex : PathEx env s) (o : LOp α)
+    (g : Ghost) (hg : (applyL env valid get put s o).1.pieces = some g) :
+    Same s (applyL env valid get put s o).1 := by
+  have none_some : ∀ {x : Option Ghost}, x = none → x = some g → False := by
+    intro x h1 h2; rw [h1] at h2; exact absurd h2 (by simp)
+  cases o with
+  | setSlice a b vs =>
+    rcases setSliceL_cases env valid get put hp h hex a b vs with e | e
+    · simp only [applyL, e]; exact Same.rfl' s
+    · exact (none_some e hg).elim
+  | setIndex i v =>
+    simp only [applyL, setIndexL] at hg ⊢
+    split
+    · exact Same.rfl' s
+    · rename_i h1
+      rw [if_neg h1] at hg
+      split
+      · exact Same.rfl' s
+      · rename_i j hj
+        rw [hj] at hg
+        exact (none_some (put_none env put hp h hex _) hg).elim
+  | append v =>
+    rcases appendL_cases env valid get put hp h hex v with e | e
+    · simp only [applyL, e]; exact Same.rfl' s
+    · exact (none_some e hg).elim
+  | extend vs =>
+    rcases extendL_cases env valid get put hp h hex vs with e | e
+    · simp only [applyL, e]; exact Same.rfl' s
+    · exact (none_some e hg).elim
+  | del i =>
+    simp only [applyL] at hg ⊢; split
+    · exact Same.rfl' s
+    · rename_i h1; rw [if_neg h1] at hg
+      exact (none_some (put_none env put hp h hex _) hg).elim
+  | clear => exact (none_some (put_none env put hp h hex _) hg).elim
+  | assignSelf =>
+    rcases setSliceL_cases env valid get put hp h hex 0 none (get s) with e | e
+    · simp only [applyL, e]; exact Same.rfl' s
+    · exact (none_some e hg).elim
+  | iaddAttr vs =>
+    rw [iaddAttr_eq] at hg ⊢
+    have hi := extendL_inv env valid get put hp.inv vs h
+    have hx := extendL_pathEx env valid get put hp.pathEx vs hex
+    split
+    · rename_i hok
+      rw [if_pos hok] at hg
+      rcases setSliceL_cases env valid get put hp hi hx 0 none
+          (get (extendL env valid get put s vs).1) with e | e
+      · rw [e] at hg ⊢
+        rcases extendL_cases env valid get put hp h hex vs with e' | e'
+        · simp only [e']; exact Same.rfl' s
+        · exact (none_some e' hg).elim
+      · exact (none_some e hg).elim
+    · rename_i hok
+      rw [if_neg hok] at hg
+      rcases extendL_cases env valid get put hp h hex vs with e' | e'
+      · rw [e']; exact Same.rfl' s
+      · exact (none_some e' hg).elim
+
+end filterList
+
+/-- **Discard.** If piece hashes are present after an operation other than `generate`, then they
+    are the ones that were present before, and the operation changed neither the content path,
+    the listed files and sizes, the piece length, nor a filter list. -/
+theorem apply_same {s : St} (h : Inv s) (env : Env) (hex : PathEx env s)
+    (op : Op) (hop : op ≠ .generate) (g : Ghost) (hg : (apply env s op).1.pieces = some g) :
+    Same s (apply env s op).1 := by
+  cases op with
+  | setPath p => exact setPath_same env s p g hg
+  | setFiles fs => exact setFilesAttr_same env s fs g hg
+  | filesDel i =>
+    simp only [apply] at hg ⊢; split
+    · exact Same.rfl' s
+    · rename_i h1; rw [if_neg h1] at hg; exact setFilesAttr_same env s _ g hg
+  | filesAppend f => exact setFilesAttr_same env s _ g hg
+  | filesClear => exact setFilesAttr_same env s _ g hg
+  | setFilepaths ps => exact setFilepathsAttr_same env s ps g hg
+  | fpDel i =>
+    simp only [apply] at hg ⊢; split
+    · exact Same.rfl' s
+    · rename_i h1; rw [if_neg h1] at hg; exact setFilepathsAttr_same env s _ g hg
+  | fpAppend p => exact setFilepathsAttr_same env s _ g hg
+  | fpClear => exact setFilepathsAttr_same env s _ g hg
+  | glob inc o => exact applyL_same env _ _ _ (putGlobs_ok env inc) h hex o g hg
+  | rx inc o => exact applyL_same env _ _ _ (putRxs_ok env inc) h hex o g hg
+  | setName n =>
+    simp only [apply, setName]; split <;> exact ⟨rfl, rfl, rfl, rfl, rfl, rfl, rfl, rfl⟩
+  | setPieceSize v => exact setPieceSize_same h v g hg
+  | setMin v => exact setMin_same v g hg
+  | setMax v => exact setMax_same v g hg
+  | generate => exact absurd rfl hop
+  | setComment c => exact ⟨rfl, rfl, rfl, rfl, rfl, rfl, rfl, rfl⟩
+
+
+/-! ### `ML.readd` = the specification `dedupFirst` -/
+
+section readd
+variable {α : Type} [DecidableEq α]
+
+theorem readd_foldl (l : List α) : ∀ acc : List α,
+    l.foldl (fun acc x => if acc.contains x then acc else acc ++ [x]) acc =
+      acc ++ (dedupFirst l).filter (fun y => !acc.contains y) := by
+  induction l with
+  | nil => intro acc; simp [dedupFirst]
+  | cons x xs ih =>
+    intro acc
+    simp only [List.foldl_cons, dedupFirst]
+    by_cases hx : acc.contains x = true
+    · rw [if_pos hx, ih]
+      congr 1
+      rw [List.filter_cons]
+      simp only [hx, Bool.not_true, Bool.false_eq_true, if_false, List.filter_filter]
+      apply List.filter_congr
+      intro y _
+      by_cases hy : acc.contains y = true
+      · rw [hy]; simp
+      · have : y ≠ x := by intro e; subst e; exact hy hx
+        simp [this]
+    · rw [if_neg hx, ih]
+      rw [List.filter_cons]
+      simp only [hx, Bool.not_false, if_true, List.filter_filter, List.append_assoc,
+        List.singleton_append]
+      congr 2
+      apply List.filter_congr
+      intro y _
+      simp only [List.contains_eq_mem, List.mem_append, List.mem_singleton, ne_eq, decide_not]
+      by_cases h1 : y ∈ acc <;> by_cases h2 : y = x <;> simp [h1, h2]
+
+/-- **model = specification** for the re-adding loop of `__setitem__` -/
+theorem readd_eq_dedupFirst (l : List α) : ML.readd l = dedupFirst l := by
+  unfold ML.readd
+  rw [readd_foldl]
+  simp
+
+theorem mem_dedupFirst (l : List α) (y : α) : y ∈ dedupFirst l ↔ y ∈ l := by
+  induction l with
+  | nil => simp [dedupFirst]
+  | cons x xs ih =>
+    simp only [dedupFirst, List.mem_cons, List.mem_filter, ih, decide_eq_true_eq]
+    by_cases h : y = x <;> simp [h]
+
+theorem nodup_dedupFirst (l : List α) : (dedupFirst l).Nodup := by
+  induction l with
+  | nil => simp [dedupFirst]
+  | cons x xs ih =>
+    simp only [dedupFirst, List.nodup_cons]
+    refine ⟨?_, List.Nodup.sublist List.filter_sublist ih⟩
+    simp [List.mem_filter]
+
+theorem dedupFirst_of_nodup (l : List α) (h : l.Nodup) : dedupFirst l = l := by
+  induction l with
+  | nil => rfl
+  | cons x xs ih =>
+    rw [List.nodup_cons] at h
+    simp only [dedupFirst, ih h.2]
+    congr 1
+    rw [List.filter_eq_self]
+    intro a ha
+    have : a ≠ x := by intro e; subst e; exact h.1 ha
+    simp [this]
+
+omit [DecidableEq α] in
+/-- `lst[:] = lst` on the plain list is the identity -/
+theorem spliced_self (l : List α) : ML.spliced l 0 none l = l := by
+  simp [ML.spliced]
+
+omit [DecidableEq α] in
+theorem mem_spliced {l vs : List α} {a : Nat} {b : Option Nat} {y : α}
+    (h : y ∈ ML.spliced l a b vs) : y ∈ l ∨ y ∈ vs := by
+  unfold ML.spliced at h
+  simp only [List.mem_append] at h
+  rcases h with (h | h) | h
+  · exact Or.inl (List.mem_of_mem_take h)
+  · exact Or.inr h
+  · exact Or.inl (List.mem_of_mem_drop h)
+
+end readd
+
+/-! ### only filter-list operations change a filter list -/
+
+/-- the four filter lists of `s'` are those of `s` -/
+def Filt (s s' : St) : Prop :=
+  s'.exGlobs = s.exGlobs ∧ s'.inGlobs = s.inGlobs ∧ s'.exRegexs = s.exRegexs ∧
+  s'.inRegexs = s.inRegexs
+
+theorem Filt.rfl' (s : St) : Filt s s := ⟨rfl, rfl, rfl, rfl⟩
+
+theorem Filt.trans {a b c : St} (h1 : Filt a b) (h2 : Filt b c) : Filt a c :=
+  ⟨h2.1.trans h1.1, h2.2.1.trans h1.2.1, h2.2.2.1.trans h1.2.2.1, h2.2.2.2.trans h1.2.2.2⟩
+
+theorem checkAndStore_filt (s : St) (x : Int) : Filt s (checkAndStore s x).1 := by
+  rcases checkAndStore_cases s x with h1 | ⟨n, _, _, _, _, h1⟩ <;> rw [h1] <;> exact ⟨rfl, rfl, rfl, rfl⟩
+
+theorem setPieceSize_filt (s : St) (v : Option Int) : Filt s (setPieceSize s v).1 := by
+  unfold setPieceSize
+  cases v with
+  | none => simp only; split
+            · exact ⟨rfl, rfl, rfl, rfl⟩
+            · exact checkAndStore_filt ..
+  | some x => exact checkAndStore_filt ..
+
+theorem setFilesCore_filt (env : Env) (s : St) (files : List (Path × Nat)) (bp : Option Path) :
+    Filt s (setFilesCore env s files bp).1 := by
+  unfold setFilesCore
+  exact Filt.trans ⟨rfl, rfl, rfl, rfl⟩ (setPieceSize_filt _ none)
+
+theorem setPath_filt (env : Env) (s : St) (v : Option Path) : Filt s (setPath env s v).1 := by
+  cases v with
+  | none => exact ⟨rfl, rfl, rfl, rfl⟩
+  | some q =>
+    unfold setPath; simp only
+    split
+    · exact setFilesCore_filt ..
+    · split
+      · exact setFilesCore_filt ..
+      · exact Filt.rfl' s
+
+theorem setFilesAttr_filt (env : Env) (s : St) (fs : List (Path × Nat)) :
+    Filt s (setFilesAttr env s fs).1 := by
+  unfold setFilesAttr
+  split
+  · exact Filt.rfl' s
+  · split
+    · exact setFilesCore_filt ..
+    · simp only
+      split
+      · exact Filt.rfl' s
+      · exact setFilesCore_filt ..
+
+theorem setFilepathsAttr_filt (env : Env) (s : St) (ps : List Path) :
+    Filt s (setFilepathsAttr env s ps).1 := by
+  unfold setFilepathsAttr
+  simp only
+  split
+  · exact setFilesCore_filt ..
+  · split
+    · exact Filt.rfl' s
+    · exact setFilesCore_filt ..
+
+/-- the callback of the filter lists re-reads the content; it never writes a filter list -/
+theorem filtersChanged_filt (env : Env) (s : St) : Filt s (filtersChanged env s).1 := by
+  unfold filtersChanged
+  split
+  · exact setPath_filt ..
+  · exact setFilesAttr_filt ..
+
+theorem setMin_filt (s : St) (v : Option Int) : Filt s (setMin s v).1 := by
+  rcases setMin_cases s v with e | ⟨m, e | ⟨y, e⟩⟩ <;> rw [e]
+  · exact Filt.rfl' s
+  · exact ⟨rfl, rfl, rfl, rfl⟩
+  · exact Filt.trans ⟨rfl, rfl, rfl, rfl⟩ (checkAndStore_filt _ y)
+
+theorem setMax_filt (s : St) (v : Option Int) : Filt s (setMax s v).1 := by
+  rcases setMax_cases s v with e | ⟨m, e | ⟨y, e⟩⟩ <;> rw [e]
+  · exact Filt.rfl' s
+  · exact ⟨rfl, rfl, rfl, rfl⟩
+  · exact Filt.trans ⟨rfl, rfl, rfl, rfl⟩ (checkAndStore_filt _ y)
+
+theorem generate_filt (env : Env) (s : St) : Filt s (generate env s).1 := by
+  unfold generate
+  split
+  · exact Filt.rfl' s
+  · split
+    · exact Filt.rfl' s
+    · split
+      · exact Filt.rfl' s
+      · split <;> exact ⟨rfl, rfl, rfl, rfl⟩
+
+/-! ### a filter list holds each pattern once, and only patterns -/
+
+/-- one list: no duplicates, only accepted items -/
+def LOk {α : Type} (valid : α → Bool) (l : List α) : Prop := l.Nodup ∧ l.all valid = true
+
+theorem filtersOk_iff (s : St) :
+    FiltersOk s ↔ (∀ inc, LOk (fun _ => true) (getGlobs s inc)) ∧ (∀ inc, LOk Rx.valid (getRxs s inc)) := by
+  unfold FiltersOk LOk getGlobs getRxs
+  constructor
+  · rintro ⟨a, b, c, d, e, f⟩
+    refine ⟨fun inc => ?_, fun inc => ?_⟩
+    · cases inc <;> simp [a, b]
+    · cases inc
+      · exact ⟨c, e⟩
+      · exact ⟨d, f⟩
+  · rintro ⟨h1, h2⟩
+    have a := h1 false; have b := h1 true; have c := h2 false; have d := h2 true
+    simp only [Bool.false_eq_true, if_false, if_true] at a b c d
+    exact ⟨a.1, b.1, c.1, d.1, c.2, d.2⟩
+
+/-- `get`/`put` select one of the four lists; `get'` is anything `put` leaves alone -/
+structure LensOk {α : Type} (get : St → List α) (put : St → List α → St) : Prop where
+  get_put : ∀ s l, get (put s l) = l
+  get_filt : ∀ s s', Filt s s' → get s' = get s
+
+section filterList
+variable {α : Type} [DecidableEq α]
+variable (env : Env) (valid : α → Bool) (get : St → List α) (put : St → List α → St)
+
+omit [DecidableEq α] in
+theorem get_changed (hl : LensOk get put) (s : St) (l : List α) :
+    get (filtersChanged env (put s l)).1 = l := by
+  rw [hl.get_filt _ _ (filtersChanged_filt env (put s l)), hl.get_put]
+
+theorem lok_readd {l : List α} (h : ∀ y ∈ l, valid y = true) : LOk valid (ML.readd l) := by
+  rw [readd_eq_dedupFirst]
+  refine ⟨nodup_dedupFirst l, ?_⟩
+  rw [List.all_eq_true]
+  intro y hy
+  exact h y ((mem_dedupFirst l y).1 hy)
+
+theorem setSliceL_lok {s : St} (hl : LensOk get put) (h : LOk valid (get s)) (a : Nat)
+    (b : Option Nat) (vs : List α) : LOk valid (get (setSliceL env valid get put s a b vs).1) := by
+  unfold setSliceL; split
+  · exact h
+  · rename_i hv
+    rw [get_changed env get put hl]
+    apply lok_readd
+    intro y hy
+    rcases mem_spliced hy with hy | hy
+    · exact (List.all_eq_true.1 h.2) y hy
+    · have : vs.all valid = true := by simpa using hv
+      exact (List.all_eq_true.1 this) y hy
+
+theorem appendL_lok {s : St} (hl : LensOk get put) (h : LOk valid (get s)) (v : α) :
+    LOk valid (get (appendL env valid get put s v).1) := by
+  unfold appendL; split
+  · exact h
+  · rename_i hv
+    have hv' : valid v = true := by simpa using hv
+    rw [get_changed env get put hl]
+    split
+    · exact h
+    · rename_i hc
+      have hn : v ∉ get s := by simpa using hc
+      refine ⟨?_, ?_⟩
+      · rw [List.nodup_append]
+        refine ⟨h.1, by simp, ?_⟩
+        intro a ha b hb
+        simp only [List.mem_singleton] at hb
+        subst hb
+        intro e; subst e; exact hn ha
+      · simp [h.2, hv']
+
+theorem extendL_lok (hl : LensOk get put) (vs : List α) :
+    ∀ {s : St}, LOk valid (get s) → LOk valid (get (extendL env valid get put s vs).1) := by
+  induction vs with
+  | nil => intro s h; exact h
+  | cons v vs ih =>
+    intro s h
+    rw [extendL_cons]
+    split
+    · exact ih (appendL_lok env valid get put hl h v)
+    · exact appendL_lok env valid get put hl h v
+
+/-- every operation on a filter list leaves it duplicate-free and holding only accepted items -/
+theorem applyL_lok {s : St} (hl : LensOk get put) (h : LOk valid (get s)) (o : LOp α) :
+    LOk valid (get (applyL env valid get put s o).1) := by
+  cases o with
+  | setSlice a b vs => exact setSliceL_lok env valid get put hl h a b vs
+  | setIndex i v =>
+    simp only [applyL, setIndexL]; split
+    · exact h
+    · rename_i hv
+      have hv' : valid v = true := by simpa using hv
+      split
+      · exact h
+      · rw [get_changed env get put hl]
+        apply lok_readd
+        intro y hy
+        rcases List.mem_or_eq_of_mem_set hy with hy | hy
+        · exact (List.all_eq_true.1 h.2) y hy
+        · rw [hy]; exact hv'
+  | append v => exact appendL_lok env valid get put hl h v
+  | extend vs => exact extendL_lok env valid get put hl vs h
+  | del i =>
+    simp only [applyL]; split
+    · exact h
+    · rw [get_changed env get put hl]
+      refine ⟨List.Nodup.sublist (List.eraseIdx_sublist _ _) h.1, ?_⟩
+      rw [List.all_eq_true]
+      intro y hy
+      exact (List.all_eq_true.1 h.2) y ((List.eraseIdx_sublist _ _).subset hy)
+  | clear =>
+    simp only [applyL]
+    rw [get_changed env get put hl]
+    exact ⟨List.nodup_nil, rfl⟩
+  | assignSelf => exact setSliceL_lok env valid get put hl h 0 none _
+  | iaddAttr vs =>
+    rw [iaddAttr_eq]; split
+    · exact setSliceL_lok env valid get put hl (extendL_lok env valid get put hl vs h) 0 none _
+    · exact extendL_lok env valid get put hl vs h
+
+/-- … and leaves alone whatever `put` and the callback leave alone (e.g. the other three lists) -/
+theorem applyL_frame {β : Type} (get' : St → β) (h1 : ∀ s l, get' (put s l) = get' s)
+    (h2 : ∀ s s', Filt s s' → get' s' = get' s) (s : St) (o : LOp α) :
+    get' (applyL env valid get put s o).1 = get' s := by
+  have fc : ∀ s l, get' (filtersChanged env (put s l)).1 = get' s := by
+    intro s l; rw [h2 _ _ (filtersChanged_filt env (put s l)), h1]
+  have sl : ∀ s a b vs, get' (setSliceL env valid get put s a b vs).1 = get' s := by
+    intro s a b vs; unfold setSliceL; split
+    · rfl
+    · exact fc _ _
+  have ap : ∀ s v, get' (appendL env valid get put s v).1 = get' s := by
+    intro s v; unfold appendL; split
+    · rfl
+    · exact fc _ _
+  have ex : ∀ vs s, get' (extendL env valid get put s vs).1 = get' s := by
+    intro vs
+    induction vs with
+    | nil => intro s; rfl
+    | cons v vs ih =>
+      intro s
+      rw [extendL_cons]; split
+      · rw [ih, ap]
+      · exact ap _ _
+  cases o with
+  | setSlice a b vs => exact sl _ _ _ _
+  | setIndex i v =>
+    simp only [applyL, setIndexL]; split
+    · rfl
+    · split
+      · rfl
+      · exact fc _ _
+  | append v => exact ap _ _
+  | extend vs => exact ex _ _
+  | del i =>
+    simp only [applyL]; split
+    · rfl
+    · exact fc _ _
+  | clear => exact fc _ _
+  | assignSelf => exact sl _ _ _ _
+  | iaddAttr vs =>
+    rw [iaddAttr_eq]; split
+    · rw [sl, ex]
+    · exact ex _ _
+
+end filterList
+
+theorem globs_lens (inc : Bool) : LensOk (getGlobs · inc) (putGlobs · inc) := by
+  refine ⟨fun s l => ?_, fun s s' h => ?_⟩
+  · unfold getGlobs putGlobs; cases inc <;> simp
+  · unfold getGlobs; cases inc
+    · simpa using h.1
+    · simpa using h.2.1
+
+theorem rxs_lens (inc : Bool) : LensOk (getRxs · inc) (putRxs · inc) := by
+  refine ⟨fun s l => ?_, fun s s' h => ?_⟩
+  · unfold getRxs putRxs; cases inc <;> simp
+  · unfold getRxs; cases inc
+    · simpa using h.2.2.1
+    · simpa using h.2.2.2
+
+theorem filtersOk_of_filt {s s' : St} (h : Filt s s') (hf : FiltersOk s) : FiltersOk s' := by
+  unfold FiltersOk at hf ⊢
+  rw [h.1, h.2.1, h.2.2.1, h.2.2.2]; exact hf
+
+/-- what every operation other than an edit of a filter list does to the filter lists: nothing -/
+theorem apply_filt (env : Env) (s : St) (op : Op) (hg : ∀ inc o, op ≠ .glob inc o)
+    (hr : ∀ inc o, op ≠ .rx inc o) : Filt s (apply env s op).1 := by
+  cases op with
+  | setPath p => exact setPath_filt env s p
+  | setFiles fs => exact setFilesAttr_filt env s fs
+  | filesDel i =>
+    simp only [apply]; split
+    · exact Filt.rfl' s
+    · exact setFilesAttr_filt ..
+  | filesAppend f => exact setFilesAttr_filt ..
+  | filesClear => exact setFilesAttr_filt ..
+  | setFilepaths ps => exact setFilepathsAttr_filt ..
+  | fpDel i =>
+    simp only [apply]; split
+    · exact Filt.rfl' s
+    · exact setFilepathsAttr_filt ..
+  | fpAppend p => exact setFilepathsAttr_filt ..
+  | fpClear => exact setFilepathsAttr_filt ..
+  | glob inc o => exact absurd rfl (hg inc o)
+  | rx inc o => exact absurd rfl (hr inc o)
+  | setName n => simp only [apply, setName]; split <;> exact ⟨rfl, rfl, rfl, rfl⟩
+  | setPieceSize v => exact setPieceSize_filt s v
+  | setMin v => exact setMin_filt s v
+  | setMax v => exact setMax_filt s v
+  | generate => exact generate_filt env s
+  | setComment c => exact ⟨rfl, rfl, rfl, rfl⟩
+
+/-- **one step**: every operation, raising or not, keeps the filter lists well formed -/
+theorem apply_filtersOk {s : St} (h : FiltersOk s) (env : Env) (op : Op) :
+    FiltersOk (apply env s op).1 := by
+  cases op with
+  | glob inc o =>
+    rw [filtersOk_iff] at h ⊢
+    refine ⟨fun inc' => ?_, fun inc' => ?_⟩
+    · by_cases e : inc' = inc
+      · subst e
+        exact applyL_lok env _ _ _ (globs_lens inc') (h.1 inc') o
+      · have := applyL_frame env (fun _ => true) (getGlobs · inc) (putGlobs · inc) (getGlobs · inc')
+          (fun s l => by unfold getGlobs putGlobs; cases inc <;> cases inc' <;> simp_all)
+          (fun s s' hf => (globs_lens inc').get_filt s s' hf) s o
+        simp only [apply]; rw [this]; exact h.1 inc'
+    · have := applyL_frame env (fun _ => true) (getGlobs · inc) (putGlobs · inc) (getRxs · inc')
+          (fun s l => by unfold getRxs putGlobs; cases inc <;> rfl)
+          (fun s s' hf => (rxs_lens inc').get_filt s s' hf) s o
+      simp only [apply]; rw [this]; exact h.2 inc'
+  | rx inc o =>
+    rw [filtersOk_iff] at h ⊢
+    refine ⟨fun inc' => ?_, fun inc' => ?_⟩
+    · have := applyL_frame env Rx.valid (getRxs · inc) (putRxs · inc) (getGlobs · inc')
+          (fun s l => by unfold getGlobs putRxs; cases inc <;> rfl)
+          (fun s s' hf => (globs_lens inc').get_filt s s' hf) s o
+      simp only [apply]; rw [this]; exact h.1 inc'
+    · by_cases e : inc' = inc
+      · subst e
+        exact applyL_lok env _ _ _ (rxs_lens inc') (h.2 inc') o
+      · have := applyL_frame env Rx.valid (getRxs · inc) (putRxs · inc) (getRxs · inc')
+          (fun s l => by unfold getRxs putRxs; cases inc <;> cases inc' <;> simp_all)
+          (fun s s' hf => (rxs_lens inc').get_filt s s' hf) s o
+        simp only [apply]; rw [this]; exact h.2 inc'
+  | _ => exact filtersOk_of_filt (apply_filt env s _ (by intros; simp) (by intros; simp)) h
 
 end Torf.Attrs
